@@ -17,6 +17,7 @@ aws_readkeys(const char * fname, char ** key_id, char ** key_secret)
 {
 	FILE * f;
 	char buf[1024];
+	char sbuf[1024];
 	char * p;
 
 	/* No keys yet. */
@@ -26,6 +27,16 @@ aws_readkeys(const char * fname, char ** key_id, char ** key_secret)
 	if ((f = fopen(fname, "r")) == NULL) {
 		warnp("fopen(%s)", fname);
 		goto err0;
+	}
+
+	/*
+	 * Use a stream buffer of our own: stdio would otherwise read the file
+	 * (including the key secret) into a buffer which it hands back to the
+	 * allocator, contents intact, when the file is closed.
+	 */
+	if (setvbuf(f, sbuf, _IOFBF, sizeof(sbuf))) {
+		warnp("setvbuf");
+		goto err2;
 	}
 
 	/* Read lines of up to 1024 characters. */
@@ -87,6 +98,10 @@ aws_readkeys(const char * fname, char ** key_id, char ** key_secret)
 		goto err1;
 	}
 
+	/* The stream buffer and line buffer may hold the key secret. */
+	insecure_memzero(sbuf, sizeof(sbuf));
+	insecure_memzero(buf, sizeof(buf));
+
 	/* Success! */
 	return (0);
 
@@ -96,6 +111,8 @@ err2:
 	if (fclose(f))
 		warnp("fclose");
 err1:
+	insecure_memzero(sbuf, sizeof(sbuf));
+	insecure_memzero(buf, sizeof(buf));
 	free(*key_id);
 	if (*key_secret) {
 		insecure_memzero(*key_secret, strlen(*key_secret));
